@@ -21,6 +21,7 @@ EOLS = ["\n", "\r\n", "\r", ""]
 
 def check(s, p, q):
     """Returns (has_command, violation message | None)."""
+    H.reset_pkg_state()      # every input starts from the package's import-time module state
     has = False
     try:
         out = []
